@@ -16,7 +16,7 @@ ALPHA = 1e-12
 NAMES = ['t7', 'b2', 'x9', 'a1', 'm5', 'k3']
 CFG = ('SPECIFICATION Spec\nCONSTANTS\n  MinCols = %d\n  MaxCols = %d\n  Kinds = {%s}\n  Patterns = {%s}\n  Forms = {%s}\n  RowCounts = {%s}\n'
        'INVARIANT SchemaOK\nINVARIANT Emit\nCHECK_DEADLOCK FALSE\n')
-KINDS = ('gaussian', 'gamma', 'beta', 'uniform', 'student', 'bimodal', 'constant', 'timestamp')
+KINDS = ('gaussian', 'gamma', 'beta', 'uniform', 'student', 'bimodal', 'constant', 'timestamp', 'integer')
 PATTERNS = ('independent', 'equi-positive', 'equi-negative', 'ar', 'near-singular')
 FORMS = ('default', 'class', 'name', 'instance', 'dict')
 
@@ -49,6 +49,8 @@ def make_table(layout, pattern, n, rs):
     for j, kind in enumerate(layout):
         if kind == 'constant':
             out[cols[j]] = np.full(n, 3.25)
+        elif kind == 'integer':                 # an integer-typed column (discretised gamma, many ties)
+            out[cols[j]] = np.rint(stats.gamma(2.0, 0.0, 25.0).ppf(U[:, j])).astype(np.int64)
         elif kind == 'bimodal':
             out[cols[j]] = np.where(U[:, j] < 0.4, stats.norm(0, 1).ppf(U[:, j] / 0.4), stats.norm(8, 1.5).ppf((U[:, j] - 0.4) / 0.6))
         else:
@@ -60,13 +62,15 @@ def true_cdf(kind, x):
     from scipy import stats
     if kind == 'bimodal':
         return 0.4 * stats.norm(0, 1).cdf(x) + 0.6 * stats.norm(8, 1.5).cdf(x)
+    if kind == 'integer':
+        return stats.gamma(2.0, 0.0, 25.0).cdf(np.asarray(x, dtype=float) + 0.5)
     return law(kind).cdf(x)
 
 
 def config(form, layout, cols):
     import copulas.univariate as U
     fam = {'gaussian': U.GaussianUnivariate, 'gamma': U.GammaUnivariate, 'beta': U.BetaUnivariate, 'uniform': U.UniformUnivariate,
-           'student': U.StudentTUnivariate, 'bimodal': U.GaussianKDE, 'constant': U.GaussianUnivariate, 'timestamp': U.GaussianUnivariate}
+           'student': U.StudentTUnivariate, 'bimodal': U.GaussianKDE, 'constant': U.GaussianUnivariate, 'timestamp': U.GaussianUnivariate, 'integer': U.GammaUnivariate}
     if form == 'default':
         return {}
     if form == 'class':
